@@ -1,10 +1,34 @@
-"""C01 Debounce: nothing is copied before its quiet period has elapsed (queue level)."""
+"""C01 Debounce: nothing is copied before its quiet period has elapsed."""
+import random
+
 import check_C14
+import world_check as wk
+import world_common as wc
+
+
+def world_phase(rep, exe_impl, exe_model):
+    """handler level: the interval is changed by rewriting the configuration file while items are pending"""
+    rng = random.Random(rep.seed + 1)
+    n = 80 if rep.tier == "quick" else 1500
+    cases = []
+    for i in range(n):
+        t, m = wc.gen_debounce_case(rng)
+        cases.append(("d%d" % i, t, m))
+    f, v = wk.run_cases(rep, exe_impl, exe_model, cases, ["bursts", "queue_form", "fault_reported", "no_error"])
+    rep.cov["evaluations"] = rep.cov.get("evaluations", 0) + len(cases)
+    rep.cov["traces_validated_against_impl"] = rep.cov.get("traces_validated_against_impl", 0) + v
+    rep.cov["rule"] = rep.cov.get("rule", "") + ("; handler level: histories of writes, clock steps and passes in which the watched configuration file is rewritten "
+                                                 "with another debounce_seconds (same queue) while items are pending; every pass is judged with the interval in force")
+    return f
 
 
 def main(rep):
-    check_C14.main(rep, pid="C01", handler_style=True)
+    check_C14.main(rep, pid="C01", handler_style=True, extra=world_phase)
 
 
 def replay(rep, path):
+    import json
+    d = json.load(open(path))
+    if any(l.startswith("cfg ") for l in d.get("script", [])):
+        return wk.replay_world(rep, path, ["bursts"])
     return check_C14.replay(rep, path, pid="C01")
